@@ -30,9 +30,22 @@ func ReplicatorIdle(s iface.Store) bool {
 // selects which points park in this run (nil = none).
 func (k *K) InstallHooks(want func(point string, owner interface{}) bool) {
 	w := k.W
+	base := k.AlwaysPark
 	verifhook.SetYield(func(point string, owner interface{}) {
-		w.ParkHere(point, owner, want)
+		w.ParkHere(point, owner, func(pt string, o interface{}) bool {
+			return (want != nil && want(pt, o)) || (base != nil && base(pt, o))
+		})
 	})
+}
+
+// RemoveHooks takes out what InstallHooks put in; the points a scenario parks at for the whole
+// run (AlwaysPark) stay.
+func (k *K) RemoveHooks() {
+	if k.AlwaysPark != nil {
+		k.InstallHooks(nil)
+		return
+	}
+	UninstallHooks()
 }
 
 func UninstallHooks() { verifhook.SetYield(nil) }
